@@ -49,6 +49,7 @@ def floors(tier):
             "counters": {"search_pairs_checked": n["sm"] * 9, "paths_executed": n["sm"] * 5,
                          "non_stateid_targets_refused": n["sm"] * 3, "too_small_refused": n["small"] * 3,
                          "grid_fits_checked": max(1, n["grid"] - 1), "candidates_checked_in_grid": n["grid"] * 3,
+                         "grid_fits_where_selected_is_not_first_value": 1,
                          "exported_config_fields_checked": n["grid"]}}
 
 
@@ -218,13 +219,26 @@ def _grid(R, rng, ctx):
     defaults = dataclasses.asdict(python.Config())
     pool = {"innovation_filtering": [None, 1.5, 3.0, 6.5, 9.0], "max_dt_sec": [0.02, 0.25, 0.5],
             "common_subexpression_elimination": [False, True]}
-    keys = rng.sample(sorted(pool), rng.choice([1, 2, 2]))
+    # innovation_filtering is always searched: with outliers in the data it changes the score, so the
+    # candidates do not tie and "selected" is not trivially the first grid element
+    keys = ["innovation_filtering"] + rng.sample(["max_dt_sec", "common_subexpression_elimination"], rng.choice([0, 1, 1]))
     grid = {}
     for k in keys:
         vals = [v for v in pool[k] if v != defaults[k]] if k != "common_subexpression_elimination" else list(pool[k])
         rng.shuffle(vals)
         grid[k] = vals[:2]
-    X = data_for(rng, defn, rng.randint(4, 6))
+    X = data_for(rng, defn, rng.randint(5, 6))
+    X[1::2, -1] *= 12.0  # outlier readings: rejected for small thresholds, used for large / disabled
+    _grid_once(R, rng, defn, b, grid, X, reverse=False)
+    if ctx.get("_unit_i", 0) % 2 == 0:
+        # same grid with every value list reversed: selection is by score, so for at least one of the
+        # two orders the selected value is not the first element of its list
+        _grid_once(R, rng, defn, b, {k: list(reversed(v)) for k, v in grid.items()}, X, reverse=True)
+
+
+def _grid_once(R, rng, defn, b, grid, X, reverse):
+    from formak import ui
+
     del RECORDED[:]
     fp = gen.fingerprint(["grid", defn, {k: [repr(v) for v in vs] for k, vs in grid.items()}, X.tolist()])
     R.fps_all.append(fp)
@@ -252,6 +266,8 @@ def _grid(R, rng, ctx):
             if not any(cand.get(k) is v or cand.get(k) == v for v in vs):
                 R.add([K.V("grid:candidate-outside-grid", f"candidate {k}={cand.get(k)!r} is not in the supplied grid {vs}", **w)])
     best = gs.best_params_
+    if any(not (best.get(k) is vs[0] or best.get(k) == vs[0]) for k, vs in grid.items()):
+        R.stats.inc("grid_fits_where_selected_is_not_first_value")
     for k, vs in grid.items():
         if not any(best.get(k) is v or best.get(k) == v for v in vs):
             R.add([K.V("grid:selected-outside-grid", f"selected {k}={best.get(k)!r} is not in the supplied grid {vs}", **w)])
@@ -271,6 +287,7 @@ def _grid(R, rng, ctx):
 def run_unit(unit, ctx):
     R = K.Result()
     rng = K.unit_rng(ID, ctx["seed"], unit)
+    ctx["_unit_i"] = unit["i"]
     if unit["kind"] == "sm":
         _sm(R, rng, ctx)
     elif unit["kind"] == "small":
